@@ -27,7 +27,53 @@ fn num_of(v: &Value) -> Option<Number> {
     Number::try_from(v).ok()
 }
 
+/// The first unit lookups of this process, from eight threads at once (same idea as C06's cold start).
+fn cold_start_units(ctx: &mut Ctx) {
+    let units = all_units();
+    let barrier = std::sync::Barrier::new(8);
+    let bad: Vec<String> = std::thread::scope(|s| {
+        let hs: Vec<_> = (0..8usize)
+            .map(|t| {
+                let barrier = &barrier;
+                s.spawn(move || {
+                    let mut bad = Vec::new();
+                    barrier.wait();
+                    let order: Vec<usize> = if t % 2 == 0 { (0..units.len()).rev().collect() } else { (0..units.len()).collect() };
+                    for ui in order.into_iter().filter(|ui| ui % 8 == t) {
+                        let u = units[ui];
+                        for id in &u.ids {
+                            match catch(|| get_unit(id)) {
+                                Ok(Some(g)) if same(g, u) => {}
+                                Ok(other) => bad.push(format!("get_unit({id:?}) on thread {t} gives {:?}", other.map(|x| x.name().to_string()))),
+                                Err(p) => bad.push(format!("get_unit({id:?}) on thread {t} panics: {}", p.msg)),
+                            }
+                            if is_zinc_unit_text(id) {
+                                let text = format!("5{id}");
+                                match catch(|| from_str(&text)) {
+                                    Ok(Ok(v)) if num_of(&v).is_some_and(|n| n.unit.is_some_and(|g| same(g, u))) => {}
+                                    Ok(r) => bad.push(format!("decoding {text:?} on thread {t} gives {:?}", r.map(|v| crate::bridge::observe(&v).show()))),
+                                    Err(p) => bad.push(format!("decoding {text:?} on thread {t} panics: {}", p.msg)),
+                                }
+                            }
+                        }
+                    }
+                    bad
+                })
+            })
+            .collect();
+        hs.into_iter().flat_map(|h| h.join().unwrap_or_default()).collect()
+    });
+    ctx.eval("cold-start", ctx.shard, true);
+    for b in bad.iter().take(3) {
+        ctx.violation("cold-start:concurrent-first-lookups", &format!("among the first unit lookups of the process, issued by 8 threads at once: {b}"), json!({"failures": bad.len()}));
+    }
+}
+
 pub fn run_c15(ctx: &mut Ctx) {
+    // all_units() reads the table itself, not the lookup functions: the library's own first lookup happens in the threads
+    if ctx.begin("cold-start", 0) {
+        cold_start_units(ctx);
+    }
     let units = all_units();
     ctx.note("units_in_database", json!(units.len()));
     let all_ids: HashSet<&str> = units.iter().flat_map(|u| u.ids.iter().map(|s| s.as_str())).collect();
